@@ -119,7 +119,7 @@ impl Prop for C04P {
                     p.h
                 } else {
                     let p = gen_program(&mut r, mode);
-                    let Some((m, _)) = crate::perturb::perturb(&p.h, &mut r) else { return };
+                    let Some((m, _)) = crate::perturb::perturb_or_edit(&p.h, &mut r) else { return };
                     m
                 };
                 let src = print(&h, &Style::varied(&mut r), idx).text;
@@ -148,7 +148,7 @@ impl Prop for C04P {
                 }
             } else {
                 let p = gen_program(&mut r, mode);
-                match crate::perturb::perturb(&p.h, &mut r) {
+                match crate::perturb::perturb_or_edit(&p.h, &mut r) {
                     Some((m, _)) => m,
                     None => return String::new(),
                 }
